@@ -221,9 +221,11 @@ impl Check for C17 {
         }
         // one key reachable through several key sources: the announced signature size is that
         // of whichever source the planner meets first; keep the flavour consistent per key
+        // (by point: the same point written as compressed and as x-only key signs the same way)
+        let point = |k: &str| key_bytes(k, ctx).ok().and_then(|b| keys::xonly_of(&b));
         for i in 0..hk.len() {
             for j in 0..i {
-                if hk[j].0 == hk[i].0 {
+                if point(&hk[j].0) == point(&hk[i].0) {
                     hk[i].1.taproot.sighash_default = hk[j].1.taproot.sighash_default;
                     break;
                 }
